@@ -94,7 +94,7 @@ NoteForms(notes) ==
         [i \in DOMAIN notes |-> TNote(notes[i])] \o <<TBlank>>}
 
 CueRenderings(c, V) ==
-  LET ids == IF c.id # 0 THEN {<<TId(c.id)>>} ELSE {<<>>}
+  LET ids == IF c.id # 0 THEN {<<TId(c.id)>>} ELSE {<<>>} \cup (IF TRUE \in V.textids THEN {<<TId(-1)>>} ELSE {})
       tim == {<<TTiming(c, hrs, tab)>> : hrs \in (IF c.s >= 3600000 \/ c.e >= 3600000 THEN {TRUE} ELSE V.hrs), tab \in V.tabs}
   IN  Cat(Cat(NoteForms(c.notes), Cat(ids, tim)), LinesRenderings(c.lines))
 
@@ -113,7 +113,8 @@ Renderings(G, V) ==
   {[eol |-> eol, bom |-> bom, toks |-> h \o b] :
      eol \in V.eols, bom \in V.boms, h \in HeadRenderings(G, V), b \in CuesRenderings(G.cues, V)}
 
-AllVars == [hrs |-> BOOLEAN, tabs |-> BOOLEAN, trails |-> BOOLEAN, eols |-> {"lf", "crlf", "cr"}, boms |-> BOOLEAN]
+\* textids: a cue without a numeric identifier may carry a textual one (any line without "-->"): it denotes no number
+AllVars == [hrs |-> BOOLEAN, tabs |-> BOOLEAN, trails |-> BOOLEAN, eols |-> {"lf", "crlf", "cr"}, boms |-> BOOLEAN, textids |-> {FALSE}]
 
 ---------------------------------------------------------------------------
 (* Reference decoder (from the format description): a run-to-completion machine over the physical lines *)
@@ -143,7 +144,7 @@ DecStep(d, t) ==
     [] t.k = "css"    -> [d EXCEPT !.css = Append(@, t.a)]
     [] t.k = "region" -> [d EXCEPT !.regions = Append(@, [id |-> t.id, lines |-> t.lines, width |-> t.width, scroll |-> t.scroll,
                                                           anchor |-> t.anchor, viewport |-> t.viewport])]
-    [] t.k = "id"     -> [d EXCEPT !.id = t.v]
+    [] t.k = "id"     -> [d EXCEPT !.id = IF t.v < 0 THEN 0 ELSE t.v]
     [] t.k = "timing" ->
          [d EXCEPT !.cues = Append(@, [s |-> t.s, e |-> t.e, id |-> d.id, notes |-> d.notes, set |-> t.set,
                                        region |-> t.region, lines |-> <<>>]),
